@@ -1,4 +1,5 @@
 import DadiVerif.Lemmas.DataDictSpec
+import DadiVerif.Lemmas.DataDictPol
 import Mathlib.Data.Nat.Choose.Cast
 /-! Infrastructure for C13, part 3: the genotype matrix (Boolean columns), the data-dictionary entry of a fully
     called SNP, the spectrum of a fully called data set as a count of columns, discordant pairs. -/
@@ -50,16 +51,16 @@ theorem discordant_eq (l : List Bool) : discordant l = countTrue l * countFalse 
 
 /-! ### the dictionary entry of a fully called, polarised SNP -/
 
+theorem snpOfCols_polRow (cols : List (List Bool)) : (snpOfCols cols).polRow = (true, some 2) := by
+  show Snp.polLookup (Snp.canonKey (some 1) 1 4) = (true, some 2)
+  decide
+
 theorem snpOfCols_polarized (cols : List (List Bool)) : (snpOfCols cols).polarized = true := by
-  simp [snpOfCols, Snp.polarized, polarizedTest, dash]
+  simp [Snp.polarized, snpOfCols_polRow]
 
 theorem snpOfCols_derived (cols : List (List Bool)) : (snpOfCols cols).derived = cols.map countTrue := by
-  have hp := snpOfCols_polarized cols
-  have hog : (snpOfCols cols).outgroupUsed = 1 := by
-    simp [Snp.outgroupUsed, hp]; simp [snpOfCols]
-  have hsel : (snpOfCols cols).derivedSel = some derivedIfA1Outgroup := by
-    simp [Snp.derivedSel, hog]; simp [snpOfCols]
-  simp only [Snp.derived, hsel, derivedIfA1Outgroup]
+  have hsel : (snpOfCols cols).derivedSel = some 2 := by simp [Snp.derivedSel, snpOfCols_polRow]
+  simp only [Snp.derived, hsel]
   simp [snpOfCols, Snp.pick]
 
 theorem snpOfCols_successful (cols : List (List Bool)) : (snpOfCols cols).successful = cols.map List.length := by
